@@ -49,6 +49,10 @@ def cases(tier, seed):
         cd = gen.random_circuit(rng, n_in=rng.randint(2, 5), n_gates=rng.randint(2, 7), max_fanin=rng.choice([3, 5, 6]),
                                 p_const=0.2, n_bb=rng.choice([0, 0, 1]), cyclic=rng.choice([0, 0, 1]), p_out=0.3,
                                 names=(gen.NASTY_NAMES if nasty else None))
+        if rng.random() < 0.25:
+            cd = gen.adversarial_rename(cd, rng)  # names the transform itself would derive from other nodes
+        if rng.random() < 0.3:
+            cd = gen.shuffle_nodes(cd, rng)  # node insertion order decides iteration order inside the library
         yield {"f": "limit_fanin", "c": cd, "k": rng.randint(2, 4)}
         yield {"f": "limit_fanout", "c": cd, "k": rng.randint(2, 3)}
         cd2 = gen.random_circuit(rng, n_in=rng.randint(1, 4), n_gates=rng.randint(2, 8), max_fanin=3, p_const=0.2,
@@ -84,7 +88,11 @@ def run_case(case):
     g0 = c.graph
     if f in ("limit_fanin", "limit_fanout"):
         k = case["k"]
-        r = getattr(cg.tx, f)(c, k)
+        r, bad_ = gen.guarded(f, lambda: getattr(cg.tx, f)(c, k), list(g0.nodes))
+        if bad_ == "skip":
+            return {"nontrivial": False, "failures": []}
+        if bad_:
+            return {"nontrivial": True, "failures": [bad_]}
         if r.inputs() != c.inputs() or r.outputs() != c.outputs():
             fails.append({"kind": f + "-io-changed", "msg": f"inputs {sorted(r.inputs())} outputs {sorted(r.outputs())}"})
         if f == "limit_fanin":
@@ -132,7 +140,11 @@ def run_case(case):
         inc = round(depth / (stages + 1))
         if inc < 1 or not list(range(inc, depth, inc)):
             return {"nontrivial": False, "failures": []}
-        r = cg.tx.insert_registers(c, stages)
+        r, bad_ = gen.guarded("insert_registers", lambda: cg.tx.insert_registers(c, stages), list(g0.nodes))
+        if bad_ == "skip":
+            return {"nontrivial": False, "failures": []}
+        if bad_:
+            return {"nontrivial": True, "failures": [bad_]}
         nontrivial = bool(r.blackboxes)
         t = _transparent(r)
         if not set(g0) <= set(t.graph):
